@@ -35,6 +35,20 @@ Round-2 strengthening (see notes/C07.md):
 * every step runs under a deterministic work limit (number of linear-operator applications,
   harness/c07_limits.py): a solve that does not return is an oracle failure with the case as replay.
 
+Round-3 strengthening (see notes/C07.md):
+* NON-LINEAR systems ("nl" cases): quadratic terms with dyadic coefficients (design x design, design x
+  coupling on the couplings; also coupling x coupling on the pure functions) make the partial Jacobians
+  depend on the point.  For fixed design inputs the coupled system is affine in the unknowns, so the oracle
+  computes the converged point exactly (Fractions), the partial derivatives at that point (the "tangent
+  system") and the implicit-function closed form; cross-check: central differences of exact solutions.
+  The same MDA / the same assembly / several MDAs on the same disciplines are linearized at 2-3 DIFFERENT
+  points, the point-dependent blocks being returned as JacobianOperator (half of the disciplines), sparse
+  or dense; the model gets the tangent system of every step.
+* requests WITHOUT connectivity condition ("free" cases): inputs on which no requested function depends
+  (a `Side` discipline reads a design input of its own), functions that depend on no requested input, alone
+  and together with dependent ones: zero blocks of the right shape, the other blocks unchanged; grammar
+  defaults of the design inputs with OTHER lengths than the values passed (every point is explicit).
+
 Correspondence with the Lean model (Driver/C07.lean):
 * exact stream — ``JacobianAssembly.assemble_jacobian`` (sparse matrix, and linear operator
   applied to the canonical basis with ``matvec`` and ``rmatvec``) for random function/variable
@@ -81,7 +95,10 @@ TRUSTED_EXTRA = (
     "cannot pass)",
     "C07: matrix-free products (AssembledJacobianOperator, JacobianOperator algebra) are validated by the exact "
     "correspondence on the canonical basis, not proved",
-    "C07: harness systems are linear, so the partial Jacobians do not depend on the MDA's converged point",
+    "C07: round-1/2 harness systems are linear (partial Jacobians independent of the point); the non-linear ones "
+    "(round 3) are affine in the couplings for fixed design inputs: the oracle's converged point is the exact "
+    "rational solution, the MDA's is within its tolerance (1e-14) of it, and the partial derivatives that depend "
+    "on the couplings are compared within the bound of the rounded stream",
     "C07: multiplication of a double by 2^k (|k| <= 96, no underflow/overflow on the generated data) is exact, so "
     "the rescaled systems have exactly the partial derivatives the oracle uses",
     "C07: the work limit counts SciPy LinearOperator applications (monkey-patched counter in the harness process "
@@ -278,6 +295,262 @@ def closed_form(system, functions, variables):
             n = system["sizes"][v]
             out[(f, v)] = [row[c0 : c0 + n] for row in tot]
             c0 += n
+    return out
+
+
+# --------------------------------------------------------------------------- non-linear systems (round 3)
+# A discipline may carry quadratic terms  "Q": {out: [[coef, a, ai, b, bi, row], ...]}
+# (out[row] += coef * a[ai] * b[bi], a and b inputs of the discipline, coef dyadic).  On an output that is an
+# input of some discipline (a coupling) every term has at least one DESIGN-input factor: for fixed design
+# inputs the coupled system is then affine in the unknowns, so the converged point is a rational vector the
+# oracle computes exactly (the certificate of the converged point), and the partial derivatives at that point
+# are rational too.  Outputs used by no discipline (pure functions) may also carry products of two couplings.
+
+
+def nonlinear(system) -> bool:
+    return any(d.get("Q") for d in system["discs"])
+
+
+def used_as_input(system) -> set[str]:
+    return {i for d in system["discs"] for i in d["ins"]}
+
+
+def point_values(system, point) -> dict[str, list[Fraction]]:
+    """Values of the design inputs at the point of a step: an int p (round-2 cases) means every
+    component = p/4; a dict {input: [rationals]} gives them explicitly (missing input: zeros)."""
+    sizes = system["sizes"]
+    if isinstance(point, dict):
+        return {x: ([Fraction(v) for v in point[x]] if x in point else [Fraction(0)] * sizes[x]) for x in design_inputs(system)}
+    return {x: [Fraction(int(point or 0), 4)] * sizes[x] for x in design_inputs(system)}
+
+
+def solve_point(system, xv) -> dict[str, list[Fraction]] | None:
+    """The converged coupled solution at the design inputs `xv`, exactly: every explicit output and
+    state (residuals: zero), plus the design inputs themselves."""
+    sizes = system["sizes"]
+    prod = producers(system)
+    res_of = all_states(system)
+    state_res = {w: r for r, w in res_of.items()}
+    unknowns = [v for v in prod if v not in res_of]
+    uoff, off = {}, 0
+    for v in unknowns:
+        uoff[v] = off
+        off += sizes[v]
+    nu = off
+    m = fzeros(nu, nu)
+    rhs = [[Fraction(0)] for _ in range(nu)]
+    late = []
+    for v in unknowns:
+        d = system["discs"][prod[v]]
+        eq = state_res.get(v, v)
+        cvec = d["c"].get(eq, [0] * sizes[v])
+        for a in range(sizes[v]):
+            row = uoff[v] + a
+            if eq == v:
+                m[row][row] += 1
+            const = Fraction(cvec[a])
+            for i, mat in d["A"].get(eq, {}).items():
+                for b in range(sizes[i]):
+                    coef = Fraction(mat[a][b])
+                    if i in uoff:
+                        m[row][uoff[i] + b] -= coef
+                    else:
+                        const += coef * xv[i][b]
+            rhs[row][0] = const
+        if eq != v:
+            continue
+        for t in (d.get("Q") or {}).get(v, []):
+            coef, fa, ai, fb, bi, r = Fraction(t[0]), t[1], int(t[2]), t[3], int(t[4]), int(t[5])
+            row = uoff[v] + r
+            da, db = fa in xv, fb in xv
+            if da and db:
+                rhs[row][0] += coef * xv[fa][ai] * xv[fb][bi]
+            elif da:
+                m[row][uoff[fb] + bi] -= coef * xv[fa][ai]
+            elif db:
+                m[row][uoff[fa] + ai] -= coef * xv[fb][bi]
+            else:
+                late.append((row, coef, uoff[fa] + ai, uoff[fb] + bi))
+    sol = fsolve(m, rhs) if nu else []
+    if sol is None:
+        return None
+    u = [r[0] for r in sol]
+    for row, coef, ia, ib in late:
+        u[row] += coef * u[ia] * u[ib]
+    vals = {x: list(v) for x, v in xv.items()}
+    for v in unknowns:
+        vals[v] = u[uoff[v] : uoff[v] + sizes[v]]
+    for r in res_of:
+        vals[r] = [Fraction(0)] * sizes[r]
+    return vals
+
+
+def tangent_system(system, xv):
+    """The LINEAR system whose blocks are the exact partial derivatives of the disciplines at the
+    converged point of `xv` (the quadratic terms differentiated at that point; no "Q" left)."""
+    if not nonlinear(system):
+        return system
+    vals = solve_point(system, xv)
+    if vals is None:
+        return None
+    sizes = system["sizes"]
+    s = copy.deepcopy(system)
+    for d in s["discs"]:
+        q = d.pop("Q", None) or {}
+        for o, terms in q.items():
+            bl = d["A"].setdefault(o, {})
+            acc = {}
+            for t in terms:
+                coef, fa, ai, fb, bi, r = Fraction(t[0]), t[1], int(t[2]), t[3], int(t[4]), int(t[5])
+                for i, idx, other, oidx in ((fa, ai, fb, bi), (fb, bi, fa, ai)):
+                    if i not in acc:
+                        acc[i] = [[Fraction(v) for v in row] for row in bl[i]] if i in bl else fzeros(sizes[o], sizes[i])
+                    acc[i][r][idx] += coef * vals[other][oidx]
+            for i, mat in acc.items():
+                bl[i] = [[rat(v) for v in row] for row in mat]
+    return s
+
+
+def quad_terms_valid(system) -> bool:
+    """Shape of the quadratic terms: factors are inputs of the discipline (not its states), indices in
+    range, dyadic coefficients; on a coupling every term has a design-input factor."""
+    sizes = system["sizes"]
+    xs = set(design_inputs(system))
+    used = used_as_input(system)
+    for d in system["discs"]:
+        for o, terms in (d.get("Q") or {}).items():
+            if o not in d["outs"]:
+                return False
+            for t in terms:
+                if len(t) != 6:
+                    return False
+                coef, fa, ai, fb, bi, r = Fraction(t[0]), t[1], int(t[2]), t[3], int(t[4]), int(t[5])
+                if fa not in d["ins"] or fb not in d["ins"]:
+                    return False
+                if not (0 <= ai < sizes[fa] and 0 <= bi < sizes[fb] and 0 <= r < sizes[o]):
+                    return False
+                if coef.denominator & (coef.denominator - 1) or abs(coef) > 1:
+                    return False
+                if o in used and fa not in xs and fb not in xs:
+                    return False
+    return True
+
+
+def derivative_by_differences(system, xv, h=Fraction(1, 2**24)):
+    """Independent cross-check of the oracle on a non-linear system: central differences of the EXACT
+    converged solution (error O(h^2) on a quadratic system)."""
+    out = {}
+    sizes = system["sizes"]
+    for x in xv:
+        cols = []
+        for b in range(sizes[x]):
+            hi = {k: list(v) for k, v in xv.items()}
+            lo = {k: list(v) for k, v in xv.items()}
+            hi[x][b] += h
+            lo[x][b] -= h
+            vh, vl = solve_point(system, hi), solve_point(system, lo)
+            if vh is None or vl is None:
+                return None
+            cols.append({v: [(p - q) / (2 * h) for p, q in zip(vh[v], vl[v])] for v in vh if v not in xv})
+        for v in cols[0] if cols else []:
+            out[(v, x)] = [[cols[b][v][a] for b in range(sizes[x])] for a in range(sizes[v])]
+    return out
+
+
+def add_quadratic_terms(rng, system):
+    """A copy of a generated linear system with quadratic terms (dyadic coefficients)."""
+    s = copy.deepcopy(system)
+    sizes = s["sizes"]
+    xs = set(design_inputs(s))
+    used = used_as_input(s)
+    added = 0
+    for d in s["discs"]:
+        ins = list(d["ins"])
+        dx = [i for i in ins if i in xs]
+        for o in d["outs"]:
+            pure = o not in used
+            terms = []
+            for _ in range(rng.pick([0, 1, 1, 2, 3])):
+                if pure and rng.chance(0.5):
+                    fa = rng.pick(ins)
+                elif dx:
+                    fa = rng.pick(dx)
+                else:
+                    continue
+                fb = rng.pick(ins)
+                terms.append([rat(Fraction(rng.pick([-2, -1, 1, 2]), 8)), fa, rng.randrange(sizes[fa]),
+                              fb, rng.randrange(sizes[fb]), rng.randrange(sizes[o])])
+            if terms:
+                d.setdefault("Q", {})[o] = terms
+                added += len(terms)
+    if not added:
+        cands = [(d, o) for d in s["discs"] for o in d["outs"] if any(i in xs for i in d["ins"])]
+        if not cands:
+            return None
+        d, o = rng.pick(cands)
+        fa = rng.pick([i for i in d["ins"] if i in xs])
+        fb = rng.pick(d["ins"])
+        d.setdefault("Q", {})[o] = [[rat(Fraction(rng.pick([-1, 1]), 4)), fa, rng.randrange(sizes[fa]), fb,
+                                     rng.randrange(sizes[fb]), rng.randrange(sizes[o])]]
+    # contraction on the box |design inputs| <= 1: coupling row sums of |A| plus the |coefficients| of the
+    # (design x coupling) terms <= 1/2 (the tangent system at every generated point is checked again)
+    prod = producers(s)
+    for d in s["discs"]:
+        for o, terms in (d.get("Q") or {}).items():
+            if o not in used:
+                continue
+            for a in range(sizes[o]):
+                mine = [t for t in terms if int(t[5]) == a and ((t[1] in prod) != (t[3] in prod))]
+                while True:
+                    tot = sum(abs(Fraction(m[a][b])) for i, m in d["A"].get(o, {}).items() if i in prod for b in range(sizes[i]))
+                    tot += sum(abs(Fraction(t[0])) for t in mine)
+                    if tot <= Fraction(1, 2):
+                        break
+                    for i, m in d["A"].get(o, {}).items():
+                        if i in prod:
+                            m[a] = [rat(Fraction(v) / 2) for v in m[a]]
+                    for t in mine:
+                        t[0] = rat(Fraction(t[0]) / 2)
+    return s
+
+
+def add_side_discipline(rng, system):
+    """A copy of the system with one more discipline `Side` computing a new function from a NEW design
+    input (and possibly couplings / other design inputs): no other function depends on that input."""
+    s = copy.deepcopy(system)
+    sizes = s["sizes"]
+    free = [n for n in _NAMES if n not in sizes]
+    p, g = rng.sample(free, 2)
+    sizes[p] = rng.pick([1, 2, 3, 3])
+    sizes[g] = rng.pick([1, 2])
+    prod = producers(s)
+    res = set(all_states(s)) | set(all_states(s).values())
+    ins = [p]
+    for v in prod:
+        if v not in res and rng.chance(0.3):
+            ins.append(v)
+    for x in design_inputs(system):
+        if rng.chance(0.3):
+            ins.append(x)
+    rng.shuffle(ins)
+    d = {"name": "Side", "ins": ins, "outs": [g],
+         "A": {g: {i: [[rat(v) for v in row] for row in _rand_block(rng, sizes[g], sizes[i], lo=-2, hi=2)] for i in ins}},
+         "c": {g: [rat(_dy(rng)) for _ in range(sizes[g])]}}
+    s["discs"].insert(rng.randrange(len(s["discs"]) + 1), d)
+    return s, p
+
+
+def gen_point(rng, system) -> dict[str, list[str]]:
+    """A point of the box |x| <= 1 with dyadic coordinates (multiples of 1/4)."""
+    return {x: [rat(Fraction(rng.randint(-4, 4), 4)) for _ in range(system["sizes"][x])] for x in design_inputs(system)}
+
+
+def gen_default_sizes(rng, system, sure=()) -> dict[str, int]:
+    """Lengths of the grammar defaults of some design inputs, different from the lengths of the values."""
+    out = {}
+    for x in design_inputs(system):
+        if x in sure or rng.chance(0.5):
+            out[x] = rng.pick([n for n in (1, 2, 3, 4) if n != system["sizes"][x]])
     return out
 
 
@@ -532,9 +805,14 @@ def in_scope(system) -> bool:
                     if len(m) != sizes[o] or any(len(row) != sizes[i] for row in m):
                         return False
         prod = producers(system)
+        used = used_as_input(system)
+        if nonlinear(system) and not quad_terms_valid(system):
+            return False
         for d in system["discs"]:
             st = d.get("states", {})
             for o in d["outs"]:
+                if o not in used:
+                    continue  # a pure function is not part of the fixed-point map
                 for a in range(sizes[o]):
                     s = sum(abs(Fraction(v)) for i, m in d["A"].get(o, {}).items() if i in prod for v in m[a])
                     if s > Fraction(1, 2):
@@ -551,7 +829,7 @@ def in_scope(system) -> bool:
                     if s > dg / 2:
                         return False
         return bool(design_inputs(system))
-    except (KeyError, IndexError, ValueError, ZeroDivisionError):
+    except (KeyError, IndexError, ValueError, ZeroDivisionError, TypeError):
         return False
 
 
@@ -622,12 +900,14 @@ def self_coupled(system) -> bool:
 # --------------------------------------------------------------------------- implementation
 
 
-def build_disciplines(system, kinds=None, restrict=False, cache="simple"):
+def build_disciplines(system, kinds=None, restrict=False, cache="simple", default_sizes=None):
     from harness.c07_disc import LinDisc
 
     discs = []
     for k, spec in enumerate(system["discs"]):
         s = dict(spec)
+        if default_sizes:
+            s["default_sizes"] = dict(default_sizes)
         s["kind"] = (kinds or ["dense"] * len(system["discs"]))[k]
         s["restrict"] = bool(restrict)
         d = LinDisc(s, system["sizes"])
@@ -693,9 +973,13 @@ def _guarded(fun, solver="") -> dict[str, Any]:
         return {"exc": common.exc_class(e), "msg": repr(e)[:300]}
 
 
-def _point(system, p: int) -> dict[str, Any]:
-    if not p:
+def _point(system, p, full=False) -> dict[str, Any]:
+    """Input data of a linearization.  Round-2 cases: an int p (0: the grammar defaults).  Round 3: a dict of
+    explicit values, or `full` (the defaults have other lengths than the values): every design input is passed."""
+    if not p and not full:
         return {}
+    if isinstance(p, dict) or full:
+        return {x: np.array([float(v) for v in vals], dtype=float) for x, vals in point_values(system, p).items()}
     return {x: np.full(system["sizes"][x], 0.25 * p) for x in design_inputs(system)}
 
 
@@ -740,7 +1024,8 @@ class MdaSession:
 
     def _new_discs(self):
         c = self.case
-        return build_disciplines(self.system, c.get("kinds"), c.get("restrict", False), c.get("cache", "simple"))
+        return build_disciplines(self.system, c.get("kinds"), c.get("restrict", False), c.get("cache", "simple"),
+                                 c.get("default_sizes"))
 
     def step(self, st) -> dict[str, Any]:
         cfg = step_cfg(self.case, st)
@@ -761,8 +1046,8 @@ class MdaSession:
                     sub.matrix_type = cfg["matrix_type"]
             mda.add_differentiated_inputs(st["variables"])
             mda.add_differentiated_outputs(st["functions"])
-            jac = mda.linearize(_point(self.system, st.get("point", 0)))
-            return {"jac": _collect(jac, st)}
+            jac = mda.linearize(_point(self.system, st.get("point", 0), bool(self.case.get("default_sizes"))))
+            return {"jac": _collect(jac, st), "sizes": _sizes_seen(getattr(mda, "assembly", None), st)}
 
         if self.tainted and self.reuse != "fresh":
             return {"skip": "after-interrupted-step"}
@@ -772,6 +1057,20 @@ class MdaSession:
         if "skip" in obs or obs.get("exc") == "work-limit":
             self.tainted = True
         return obs
+
+
+def _sizes_seen(assembly, request) -> dict[str, Any]:
+    """`JacobianAssembly.sizes` (public: variable name -> number of components used to place the blocks) of
+    the requested names, when the assembly holds an entry for them."""
+    out = {}
+    try:
+        sizes = assembly.sizes
+        for v in [*request["functions"], *request["variables"]]:
+            if v in sizes:
+                out[v] = int(sizes[v])
+    except Exception as e:  # noqa: BLE001
+        _reraise_machinery(e)
+    return out
 
 
 def _collect(jac, request):
@@ -785,12 +1084,12 @@ def _collect(jac, request):
 class AssemblySession:
     """One JacobianAssembly used for several successive total_derivatives requests."""
 
-    def __init__(self, system, kinds=None, restrict=False, cache="simple"):
+    def __init__(self, system, kinds=None, restrict=False, cache="simple", default_sizes=None):
         from gemseo.core.coupling_structure import CouplingStructure
         from gemseo.core.derivatives.jacobian_assembly import JacobianAssembly
 
         self.system = system
-        self.discs = build_disciplines(system, kinds, restrict, cache)
+        self.discs = build_disciplines(system, kinds, restrict, cache, default_sizes)
         self.cs = CouplingStructure(self.discs)
         self.assembly = JacobianAssembly(self.cs)
         self.states = all_states(system)
@@ -803,12 +1102,25 @@ class AssemblySession:
         for d in self.discs:
             d.execute(self.in_data)
 
+    def set_point(self, point) -> None:
+        """Round 3: the input data are the design inputs of the point and the EXACT converged values of the
+        couplings and states (rounded to doubles): the certificate of the converged point an MDA would supply."""
+        vals = solve_point(self.system, point_values(self.system, point))
+        self.in_data = {}
+        for d in self.discs:
+            for n in d.io.input_grammar:
+                self.in_data.setdefault(n, np.array([float(v) for v in vals[n]], dtype=float))
+        for d in self.discs:
+            d.execute(self.in_data)
+
     def couplings(self) -> list[str]:
         res = self.states
         return sorted(set(self.cs.all_couplings) - set(res) - set(res.values()))
 
     def total(self, request, cfg) -> dict[str, Any]:
         def fun():
+            if isinstance(request.get("point"), dict):
+                self.set_point(request["point"])
             jac = self.assembly.total_derivatives(
                 self.in_data,
                 list(request["functions"]),
@@ -821,7 +1133,7 @@ class AssemblySession:
                 residual_variables=dict(self.states),
                 rtol=1e-12,
             )
-            return {"jac": _collect(jac, request)}
+            return {"jac": _collect(jac, request), "sizes": _sizes_seen(self.assembly, request)}
 
         if self.tainted:
             return {"skip": "after-interrupted-step"}
@@ -877,14 +1189,38 @@ def resolved_mode(system, request, cfg) -> str:
     return "direct" if nv <= nf else "adjoint"
 
 
-def store_failures(system, store) -> list[tuple[str, str]]:
+def _close_eq(got, want) -> bool:
+    try:
+        return len(got) == len(want) and all(
+            len(rg) == len(rw) and all(close(g, w) for g, w in zip(rg, rw)) for rg, rw in zip(got, want))
+    except (TypeError, ValueError):
+        return False
+
+
+def store_failures(system, store, tangents=None) -> list[tuple[str, str]]:
     """The disciplines' own Jacobians (`discipline.jac`, cache entries) must still be the exact
-    partial derivatives the disciplines returned: an assembly does not modify its operands."""
+    partial derivatives the disciplines returned: an assembly does not modify its operands.
+    Non-linear cases (`tangents` = the tangent systems at the points linearized so far): `discipline.jac`
+    must be, up to the bound of the rounded stream, the partial derivatives at one of these points (a
+    discipline the current request does not involve keeps the Jacobian of an earlier point)."""
     if not store:
         return []
     if "exc" in store:
         return [("operand-unreadable", f"the Jacobian of a discipline cannot be read after the linearization: {store['exc']}")]
     bad = []
+    if tangents is not None:
+        # (an empty list: not observed -- Newton-Raphson linearizes the disciplines at its iterates too)
+        for key, got in (store["jac"].items() if tangents else ()):
+            o, i = key[0], key[1]
+            wants = [block(t, o, i) or fzeros(t["sizes"][o], t["sizes"][i]) for t in tangents]
+            if not any(_close_eq(got, w) for w in wants):
+                bad.append((
+                    "operand-modified:jac",
+                    f"after the linearization the Jacobian d{o}/d{i} of the discipline computing {o} is {got}, its partial "
+                    f"derivatives at the linearized point are {[[float(v) for v in r] for r in wants[-1]]}",
+                ))
+                break
+        return bad
     for where in ("jac", "cache"):
         for key, got in store[where].items():
             o, i = key[0], key[1]
@@ -899,9 +1235,10 @@ def store_failures(system, store) -> list[tuple[str, str]]:
     return bad
 
 
-def oracle(system, request, cfg, obs, exact=None, exps=None) -> list[tuple[str, str]]:
+def oracle(system, request, cfg, obs, exact=None, exps=None, tangents=None) -> list[tuple[str, str]]:
     """(key, message) of every clause of the property the observation violates.
-    `system` is the system the implementation was run on (rescaled when `exps` is given)."""
+    `system` is the system the implementation was run on (rescaled when `exps` is given; for a non-linear
+    case the tangent system at the exact converged point of the step, `tangents` = those of the steps so far)."""
     exact = exact or exact_total(system)
     tag = f"{resolved_mode(system, request, cfg)}:{cfg['matrix_type']}{':lu' if cfg['lu'] else ''}"
     if all_states(system):
@@ -912,7 +1249,7 @@ def oracle(system, request, cfg, obs, exact=None, exps=None) -> list[tuple[str, 
         # The count is deterministic but a slow, correct solve cannot be told from a runaway one by
         # the count alone: the step is an oracle failure only when the exact observation of the
         # operands shows that the solver was given a corrupted system; otherwise it is skipped.
-        st = store_failures(system, obs.get("store"))
+        st = store_failures(system, obs.get("store"), tangents)
         if not st:
             return [("probe:work-limit-unconfirmed", f"step stopped at the work limit ({obs.get('msg')}), operands intact: not judged")]
         return [*st, (f"no-return:{tag}", f"the linearization did not return within the limit ({obs.get('msg')}; "
@@ -934,14 +1271,19 @@ def oracle(system, request, cfg, obs, exact=None, exps=None) -> list[tuple[str, 
                     if not close(got[a][b], want[a][b], scale):
                         bad.append((
                             f"mismatch:{tag}",
-                            f"d{f}[{a}]/d{x}[{b}] = {got[a][b]!r}, exact value {want[a][b]} ({float(want[a][b])!r})"
+                            f"d{f}[{a}]/d{x}[{b}] = {got[a][b]!r}, exact value "
+                            + (f"{want[a][b]} ({float(want[a][b])!r})" if want[a][b].denominator < 10**9 else f"{float(want[a][b])!r} (rational, at the exact converged point)")
                             + (f", scale of the block 2^{int(exps.get(f, 0)) - int(exps.get(x, 0))}" if exps else ""),
                         ))
                         break
                 else:
                     continue
                 break
-    bad += store_failures(system, obs.get("store"))
+    for v, n in (obs.get("sizes") or {}).items():
+        if n != sizes[v]:
+            bad.append((f"sizes:{tag}", f"JacobianAssembly.sizes[{v!r}] = {n} after the request, the value of {v} has {sizes[v]} components"))
+            break
+    bad += store_failures(system, obs.get("store"), tangents)
     # one message per key
     seen, out = set(), []
     for k, m in bad:
@@ -1106,6 +1448,115 @@ def gen_case(rng, system=None, flavour=None, path=None) -> dict[str, Any]:
     return case
 
 
+def request_profile(system, request) -> str:
+    """Which requested inputs / functions are structurally independent of the rest of the request."""
+    prod = producers(system)
+    reach = _disc_reach(system)
+    users = {x: [k for k, d in enumerate(system["discs"]) if x in d["ins"]] for x in request["variables"]}
+    fprod = {f: prod[f] for f in request["functions"]}
+    ind_x = [x for x in request["variables"] if not any(reach[u][pf] for u in users[x] for pf in fprod.values())]
+    ind_f = [f for f, pf in fprod.items() if not any(reach[u][pf] for x in request["variables"] for u in users[x])]
+    if len(ind_x) == len(request["variables"]):
+        return "all-independent"
+    if ind_x and ind_f:
+        return "independent-input-and-function"
+    if ind_x:
+        return "independent-input"
+    if ind_f:
+        return "independent-function"
+    return "connected"
+
+
+def gen_free_request(rng, system, side=None) -> dict[str, list[str]]:
+    """Any ordered subsets of the outputs and of the design inputs (no connectivity condition); the input of
+    the `Side` discipline, on which only the function of that discipline depends, is requested in 70% of them."""
+    outs = candidate_outputs(system)
+    xs = design_inputs(system)
+    fs = rng.sample(outs, min(len(outs), rng.pick([1, 1, 2, 3])))
+    vs = rng.sample(xs, min(len(xs), rng.pick([1, 2, 2, len(xs)])))
+    if side and side not in vs and rng.chance(0.7):
+        vs.insert(rng.randrange(len(vs) + 1), side)
+    return {"functions": fs, "variables": vs}
+
+
+def gen_case_r3(rng, base_system, flavour, path=None) -> dict[str, Any] | None:
+    """Round-3 cases (explicit points, the same objects linearized at several points):
+    * "nl":   a NON-LINEAR system (quadratic terms: the partial derivatives depend on the point), partial
+              Jacobians returned as operators by half of the disciplines, linearized at 2-3 different points by the
+              same MDA (cumulative requests) / the same assembly / several MDAs on the same disciplines;
+    * "free": requests without connectivity condition on a system with a `Side` discipline (an input on which
+              one function only depends), grammar defaults of other lengths than the values passed."""
+    system, side = base_system, None
+    if flavour == "free" or rng.chance(0.4):
+        system, side = add_side_discipline(rng, system)
+    if flavour == "nl":
+        system = add_quadratic_terms(rng, system)
+        if system is None:
+            return None
+    cfg0 = gen_config(rng, system, path)
+    path = cfg0["path"]
+    kinds = cfg0["kinds"]
+    if flavour == "nl":
+        kinds = [rng.pick(["operator", "operator", "dense", rng.pick(KINDS[2:])]) for _ in system["discs"]]
+    case = {"system": system, "path": path, "kinds": kinds, "steps": [], "flavour": flavour}
+    free = flavour == "free" or side is not None or rng.chance(0.3)
+    if free:
+        case["free"] = True
+    if flavour == "free":
+        ds = gen_default_sizes(rng, system, (side,) if rng.chance(0.8) else ())
+    else:
+        ds = gen_default_sizes(rng, system) if rng.chance(0.4) else {}
+    if ds:
+        case["default_sizes"] = ds
+    case["restrict"] = rng.chance(0.3)
+    case["cache"] = rng.pick(["simple", "simple", "simple", "memory_full"])
+
+    def request():
+        return gen_free_request(rng, system, side) if free else _gen_connected_request(rng, system)
+
+    n = rng.pick([2, 2, 3]) if flavour == "nl" else rng.pick([1, 2, 2, 3])
+    if path == "assembly":
+        for _ in range(n):
+            req = request()
+            if req is not None:
+                case["steps"].append(_step(req, gen_config(rng, system, path), point=gen_point(rng, system)))
+        if len(case["steps"]) > 1 and rng.chance(0.6):
+            first = case["steps"][0]
+            case["steps"].append(_step(first, gen_config(rng, system, path), point=copy.deepcopy(first["point"])))
+        return case
+    case["reuse"] = rng.pick(["mda", "mda", "mda", "discs", "fresh"] if flavour == "nl" else ["mda", "discs", "fresh"])
+    if case["reuse"] == "mda":
+        fs, vs = [], []
+        c0 = gen_config(rng, system, path)
+        for k in range(n):
+            req = request()
+            if req is None:
+                continue
+            fs = fs + [f for f in req["functions"] if f not in fs]
+            vs = vs + [v for v in req["variables"] if v not in vs]
+            c = gen_config(rng, system, path)
+            c["lu"], c["solver"] = c0["lu"], c0["solver"]
+            if c["lu"]:
+                c["matrix_type"] = "matrix"
+            pt = gen_point(rng, system)
+            if k == 2 and rng.chance(0.4):
+                pt = copy.deepcopy(case["steps"][0]["point"]) if case["steps"] else pt
+            case["steps"].append(_step({"functions": fs, "variables": vs}, c, point=pt))
+        return case
+    for _ in range(n):
+        req = request()
+        if req is None:
+            continue
+        p2 = path
+        if case["reuse"] == "discs":
+            p2 = rng.pick(["MDAJacobi", "MDAGaussSeidel", "MDAChain", path])
+            if p2 == "MDAChainLin" and all_states(system):
+                p2 = "MDAChain"
+        case["steps"].append(_step(req, gen_config(rng, system, p2), point=gen_point(rng, system),
+                                   **({"path": p2} if p2 != path else {})))
+    return case
+
+
 def step_cfg(case, step) -> dict[str, Any]:
     return {
         "path": step.get("path", case["path"]),
@@ -1117,12 +1568,31 @@ def step_cfg(case, step) -> dict[str, Any]:
     }
 
 
+def step_systems(case, exact=None) -> list[tuple[Any, Any]]:
+    """(system the oracle judges the step with, its exact total derivatives) for every step: the
+    (rescaled) system itself for a linear case; for a non-linear case the tangent system at the exact
+    converged point of the step."""
+    system = eff_system(case)
+    if not nonlinear(system):
+        exact = exact or exact_total(system)
+        return [(system, exact)] * len(case["steps"])
+    memo, out = {}, []
+    for st in case["steps"]:
+        key = json.dumps(st.get("point", 0), sort_keys=True)
+        if key not in memo:
+            t = tangent_system(system, point_values(system, st.get("point", 0)))
+            memo[key] = (t, exact_total(t))
+        out.append(memo[key])
+    return out
+
+
 def run_case(case) -> list[dict[str, Any]]:
     """Observations of the real code, one per step."""
     system = eff_system(case)
     obs = []
     if case["path"] == "assembly":
-        sess = AssemblySession(system, case["kinds"], case.get("restrict", False), case.get("cache", "simple"))
+        sess = AssemblySession(system, case["kinds"], case.get("restrict", False), case.get("cache", "simple"),
+                               case.get("default_sizes"))
         for st in case["steps"]:
             obs.append(sess.total(st, step_cfg(case, st)))
     else:
@@ -1134,9 +1604,9 @@ def run_case(case) -> list[dict[str, Any]]:
 
 def case_failures(case, exact=None, observations=None) -> list[tuple[int, str, str]]:
     """(step index, key, message) for every property clause the real code violates on the case."""
-    system = eff_system(case)
     exps = case.get("exps")
-    exact = exact or exact_total(system)
+    per_step = step_systems(case, exact)
+    nl = nonlinear(case["system"])
     out = []
     observations = observations if observations is not None else run_case(case)
     for k, (st, ob) in enumerate(zip(case["steps"], observations)):
@@ -1144,7 +1614,13 @@ def case_failures(case, exact=None, observations=None) -> list[tuple[int, str, s
             out.append((k, "probe:skipped-" + ob["skip"], "step skipped (" + ob["skip"] + "), not judged"))
             continue
         cfg = step_cfg(case, st)
-        bad = oracle(system, st, cfg, ob, exact, exps)
+        system, exact = per_step[k]
+        tangents = [per_step[j][0] for j in range(k + 1)] if nl else None
+        if nl and case.get("reuse", "fresh") == "fresh" and case["path"] != "assembly":
+            tangents = [system]
+        if nl and any(s2.get("path", case["path"]) == "MDANewtonRaphson" for s2 in case["steps"][: k + 1]):
+            tangents = []
+        bad = oracle(system, st, cfg, ob, exact, exps, tangents)
         if bad and bad[0][0].startswith("probe:"):
             out.append((k, bad[0][0], bad[0][1]))
             continue
@@ -1160,7 +1636,7 @@ def case_failures(case, exact=None, observations=None) -> list[tuple[int, str, s
             if "skip" in ob2:
                 out.append((k, "probe:skipped-" + ob2["skip"], "step skipped (" + ob2["skip"] + "), not judged"))
                 continue
-            bad2 = oracle(system, alt["steps"][k], step_cfg(alt, alt["steps"][k]), ob2, exact, exps)
+            bad2 = oracle(system, alt["steps"][k], step_cfg(alt, alt["steps"][k]), ob2, exact, exps, tangents)
             if not bad2 or bad2[0][0].startswith("probe:"):
                 out.append((k, "probe:solver-accuracy", bad[0][1]))
                 continue
@@ -1182,9 +1658,18 @@ def _drop_disc(system, k):
         e["ins"] = [i for i in e["ins"] if i not in gone]
         for o in e["A"]:
             e["A"][o] = {i: m for i, m in e["A"][o].items() if i not in gone}
+        _prune_quad(e, lambda t: t[1] not in gone and t[3] not in gone)
     used = {v for e in s["discs"] for v in [*e["ins"], *e["outs"], *e.get("states", {}), *e.get("states", {}).values()]}
     s["sizes"] = {v: n for v, n in s["sizes"].items() if v in used}
     return s
+
+
+def _prune_quad(d, keep) -> None:
+    if d.get("Q"):
+        d["Q"] = {o: [t for t in terms if keep(t)] for o, terms in d["Q"].items()}
+        d["Q"] = {o: terms for o, terms in d["Q"].items() if terms}
+        if not d["Q"]:
+            d.pop("Q")
 
 
 def _drop_output(system, k, o):
@@ -1195,10 +1680,13 @@ def _drop_output(system, k, o):
     d["outs"].remove(o)
     d["A"].pop(o, None)
     d["c"].pop(o, None)
+    if d.get("Q"):
+        d["Q"].pop(o, None)
     for e in s["discs"]:
         e["ins"] = [i for i in e["ins"] if i != o]
         for oo in e["A"]:
             e["A"][oo].pop(o, None)
+        _prune_quad(e, lambda t: t[1] != o and t[3] != o)
     s["sizes"].pop(o, None)
     return s
 
@@ -1227,7 +1715,25 @@ def _shrink_var(system, v):
         for o in list(d["c"]):
             if o in group:
                 d["c"][o] = d["c"][o][:-1]
+        sz = s["sizes"]
+        for o in list(d.get("Q") or {}):
+            d["Q"][o] = [t for t in d["Q"][o] if int(t[2]) < sz[t[1]] and int(t[4]) < sz[t[3]] and int(t[5]) < sz[o]]
+        _prune_quad(d, lambda t: True)
     return s
+
+
+def _fit_points(case) -> None:
+    """After a reduction of the system: the explicit points keep the design inputs that are left, with
+    their new lengths."""
+    sizes = case["system"]["sizes"]
+    xs = set(design_inputs(case["system"]))
+    for st in case["steps"]:
+        if isinstance(st.get("point"), dict):
+            st["point"] = {x: list(v)[: sizes[x]] for x, v in st["point"].items() if x in xs}
+    if case.get("default_sizes"):
+        case["default_sizes"] = {x: n for x, n in case["default_sizes"].items() if x in xs and n != sizes[x]}
+        if not case["default_sizes"]:
+            case.pop("default_sizes")
 
 
 def _valid_case(case) -> bool:
@@ -1235,6 +1741,27 @@ def _valid_case(case) -> bool:
     if not in_scope(system) or exact_total(system) is None:
         return False
     if not exps_valid(system, case.get("exps")):
+        return False
+    nl = nonlinear(system)
+    if nl and case.get("exps"):
+        return False
+    dsz = case.get("default_sizes") or {}
+    try:
+        if any(int(n) < 1 or int(n) != n for n in dsz.values()):
+            return False
+        for st in case["steps"]:
+            pt = st.get("point", 0)
+            if isinstance(pt, dict):
+                for x in design_inputs(system):
+                    if x in pt and (len(pt[x]) != system["sizes"][x] or any(abs(Fraction(v)) > 1 for v in pt[x])):
+                        return False
+            elif not isinstance(pt, int) or abs(pt) > 4:
+                return False
+        if nl:
+            for t, ex in step_systems(case):
+                if t is None or ex is None or not in_scope(t):
+                    return False
+    except (TypeError, ValueError, KeyError, ZeroDivisionError):
         return False
     if case.get("reuse", "fresh") not in ("fresh", "mda", "discs") or case.get("cache", "simple") not in ("simple", "memory_full"):
         return False
@@ -1251,7 +1778,7 @@ def _valid_case(case) -> bool:
             return False
         if len(set(st["functions"])) != len(st["functions"]) or len(set(st["variables"])) != len(st["variables"]):
             return False
-        if not connected(system, st):
+        if not case.get("free") and not connected(system, st):
             return False
         path = st.get("path", case["path"])
         if path == "MDANewtonRaphson" and not strongly_coupled_only(system):
@@ -1354,6 +1881,7 @@ def shrink_case(case, key, budget=40) -> dict[str, Any]:
             c["system"] = _drop_disc(cur["system"], k)
             c["kinds"] = cur["kinds"][:k] + cur["kinds"][k + 1 :]
             _prune_exps(c)
+            _fit_points(c)
             if fails(c):
                 cur, progress = c, True
                 break
@@ -1367,6 +1895,7 @@ def shrink_case(case, key, budget=40) -> dict[str, Any]:
                 c = copy.deepcopy(cur)
                 c["system"] = s2
                 _prune_exps(c)
+                _fit_points(c)
                 if fails(c):
                     cur, progress = c, True
                     break
@@ -1380,9 +1909,27 @@ def shrink_case(case, key, budget=40) -> dict[str, Any]:
                 continue
             c = copy.deepcopy(cur)
             c["system"] = s2
+            _fit_points(c)
             if fails(c):
                 cur, progress = c, True
                 break
+    # 6. round 3: no quadratic terms / defaults of the lengths of the values / one term at a time
+    if calls[0] < budget and cur.get("default_sizes"):
+        c = copy.deepcopy(cur)
+        c.pop("default_sizes")
+        if fails(c):
+            cur = c
+    for k, d in enumerate(cur["system"]["discs"]):
+        for o in list(d.get("Q") or {}):
+            if calls[0] >= budget:
+                break
+            c = copy.deepcopy(cur)
+            if o not in (c["system"]["discs"][k].get("Q") or {}):
+                continue
+            c["system"]["discs"][k]["Q"].pop(o)
+            _prune_quad(c["system"]["discs"][k], lambda t: True)
+            if fails(c):
+                cur = c
     return cur
 
 
@@ -1576,6 +2123,37 @@ def asm_model_diff(a, obs, answers) -> str | None:
 # --------------------------------------------------------------------------- run
 
 
+def model_line(case, st) -> str:
+    """Protocol line of a step: the (base) system of a linear case; for a non-linear case the tangent system
+    at the exact converged point of the step (the model is a function of the disciplines' Jacobians)."""
+    system = case["system"]
+    if nonlinear(system):
+        system = tangent_system(system, point_values(system, st.get("point", 0)))
+    return td_line(system, st, exps=case.get("exps"))
+
+
+def _self_check_nonlinear(case) -> None:
+    """Harness self-check on a non-linear case (first step): the implicit-function closed form of the
+    tangent system equals the derivative of the exact converged solution obtained by central differences
+    of exact solutions (bound 2^-30 relative; the truncation error is O(2^-48))."""
+    system = case["system"]
+    st = case["steps"][0]
+    xv = point_values(system, st.get("point", 0))
+    t = tangent_system(system, xv)
+    ex = exact_total(t)
+    fd = derivative_by_differences(system, xv)
+    cf = closed_form(t, candidate_outputs(t), design_inputs(t))
+    if fd is None or cf is None:
+        raise RuntimeError("harness oracle: singular non-linear system")
+    for key, m in cf.items():
+        if m != ex[key]:
+            raise RuntimeError("harness oracles disagree (closed form vs derivative of the solution, tangent system)")
+        for ra, rb in zip(m, fd[key]):
+            for a, b in zip(ra, rb):
+                if abs(a - b) > BOUND * max(1, abs(a)):
+                    raise RuntimeError(f"harness oracles disagree (implicit-function form {a} vs differences of exact solutions {b})")
+
+
 def load_corpus() -> list[dict[str, Any]]:
     d = common.CORPUS_DIR / PID
     out = []
@@ -1645,7 +2223,30 @@ def _histogram(res: Result, case, system) -> None:
                 res.count(f"rescaled:tiny-rhs:{rm}{':lu' if st['lu'] else ''}")
             if huge_rhs:
                 res.count(f"rescaled:huge-rhs:{rm}{':lu' if st['lu'] else ''}")
-    pts = [st.get("point", 0) for st in case["steps"]]
+    pts = [json.dumps(st.get("point", 0), sort_keys=True) for st in case["steps"]]
+    if nonlinear(system):
+        res.count("nonlinear")
+        shared = case["path"] == "assembly" or case.get("reuse", "fresh") != "fresh"
+        if shared and len(set(pts)) > 1:
+            res.count("nonlinear:same-objects-linearized-at-several-points")
+            if case.get("reuse") == "mda":
+                res.count("nonlinear:same-mda-linearized-at-several-points")
+            qd = [k for k, d in enumerate(system["discs"]) if d.get("Q")]
+            if any(case["kinds"][k] == "operator" for k in qd):
+                res.count("nonlinear:several-points:point-dependent-blocks-as-operator")
+            if any(case["kinds"][k] not in ("operator", "dense") for k in qd):
+                res.count("nonlinear:several-points:point-dependent-blocks-sparse")
+    if case.get("default_sizes"):
+        res.count("defaults-of-other-lengths-than-the-values")
+    if case.get("free"):
+        for st in case["steps"]:
+            prof = request_profile(system, st)
+            res.count("request:" + prof)
+            if prof != "connected" and case.get("default_sizes"):
+                ind = [x for x in st["variables"] if x in case["default_sizes"]
+                       and request_profile(system, {"functions": st["functions"], "variables": [x]}) == "all-independent"]
+                if ind:
+                    res.count("request:independent-input-with-default-of-another-length")
     if case.get("reuse") == "mda":
         res.count("history:same-mda:" + ("same-point" if len(set(pts)) == 1 else "points-change"))
         if any(set(a["functions"]) < set(b["functions"]) for a, b in zip(case["steps"], case["steps"][1:])):
@@ -1659,25 +2260,39 @@ def _histogram(res: Result, case, system) -> None:
         nv = sum(system["sizes"][v] for v in st["variables"])
         res.count("shape=" + ("square" if nf == nv else "rect"))
         res.nontrivial(json.dumps([system["sizes"], st["functions"], st["variables"], st["mode"], st["matrix_type"], st["lu"],
-                                   sorted((exps or {}).items())], sort_keys=True))
+                                   sorted((exps or {}).items()), st.get("point", 0)], sort_keys=True))
 
 
-def check_cases(res: Result, cases: list[dict[str, Any]], use_lean: bool, in_scope_stream: bool = True) -> None:
+def model_request(cases):
+    """(index, protocol lines, distinct lines) of the steps of a batch of cases.  Identical lines (the steps of
+    a sweep differ by matrix type / LU / solver only, which the model does not have) are sent once."""
     lines, index = [], []
-    if use_lean:
-        for ci, case in enumerate(cases):
-            for si, st in enumerate(case["steps"]):
-                index.append((ci, si))
-                lines.append(td_line(case["system"], st, exps=case.get("exps")))
-        answers = common.run_lean_driver(PID, lines) if lines else []
-    model = dict(zip(index, answers)) if use_lean else {}
+    for ci, case in enumerate(cases):
+        for si, st in enumerate(case["steps"]):
+            index.append((ci, si))
+            lines.append(model_line(case, st))
+    return index, lines, list(dict.fromkeys(lines))
+
+
+def model_answers(request) -> dict[tuple[int, int], str]:
+    index, lines, unique = request
+    by_line = dict(zip(unique, common.run_lean_driver(PID, unique))) if unique else {}
+    return {ix: by_line[ln] for ix, ln in zip(index, lines)}
+
+
+def check_cases(res: Result, cases: list[dict[str, Any]], use_lean: bool, in_scope_stream: bool = True, model=None) -> None:
+    if use_lean and model is None:
+        model = model_answers(model_request(cases))
+    model = model if use_lean else {}
     for ci, case in enumerate(cases):
         base = case["system"]
         exps = case.get("exps")
         system = eff_system(case)
-        exact = exact_total(system)
+        exact = None if nonlinear(system) else exact_total(system)
         if exps and exact != scaled_exact(exact_total(base), exps):
             raise RuntimeError("harness oracles disagree (rescaled system vs rescaled derivatives)")
+        if nonlinear(system):
+            _self_check_nonlinear(case)
         observations = run_case(case)
         failures = case_failures(case, exact, observations)
         res.evaluations += len(case["steps"])
@@ -1720,7 +2335,7 @@ def check_cases(res: Result, cases: list[dict[str, Any]], use_lean: bool, in_sco
                     res.violate(
                         "correspondence", "model-vs-impl:total-derivatives",
                         "total derivatives of the implementation differ from the Lean model: " + diff,
-                        {"case": case, "step": si, "protocol_line": td_line(base, st, exps=exps), "model": model[(ci, si)],
+                        {"case": case, "step": si, "protocol_line": model_line(case, st), "model": model[(ci, si)],
                          "impl": {f"{f}:{x}": v for (f, x), v in observations[si].get("jac", {}).items()} or observations[si].get("exc"),
                          "correspondence": "Driver/C07.lean `td`"},
                     )
@@ -1844,8 +2459,12 @@ def run(ctx) -> Result:
         "functions and on the block of coupled variables), random ordered input/output subsets, every (mode, "
         "matrix_type, use_lu_fact, linear_solver), through MDA*.linearize (fresh MDA, the same MDA linearized again "
         "with added outputs / at another point, several MDAs on the same discipline instances, simple and full memory "
-        "caches) and successive JacobianAssembly.total_derivatives calls; every evaluated request is non-trivial (a "
-        "coupled solve is involved); distinct by (sizes, request, mode, matrix_type, lu, exponents); plus exact "
+        "caches) and successive JacobianAssembly.total_derivatives calls; round 3: the same systems with quadratic terms "
+        "(point-dependent partial Jacobians, as operators / sparse / dense) linearized at 2-3 different explicit points "
+        "by the same MDA / assembly / disciplines, and requests without connectivity condition (inputs no requested "
+        "function depends on, functions depending on no requested input) with grammar defaults of other lengths than "
+        "the values; every evaluated request is non-trivial (a coupled solve is involved, or a zero block of a given "
+        "shape is expected); distinct by (sizes, request, mode, matrix_type, lu, exponents, point); plus exact "
         "assemble_jacobian requests (matrix and operator)"
     )
     res.assumptions = [
@@ -1853,7 +2472,11 @@ def run(ctx) -> Result:
         "rescaled systems keep one common exponent on all the variables of the residual system, so their residual Jacobian is the same matrix",
         "rounded stream: |impl - exact| <= 2^-30 * max(s, |exact|) per entry, s = 2^(e_f - e_x) the natural scale of the block "
         "(1 without rescaling) (iterative solvers, rtol 1e-12)",
-        "requests are connected: every requested function depends on a requested variable at the level of the discipline graph and conversely (the code raises on purpose otherwise)",
+        "round-1/2 streams: requests are connected (every requested function depends on a requested variable at the level of the "
+        "discipline graph and conversely); round-3 'free' cases have no such condition (since fix c7c5cf7 the code returns zero blocks)",
+        "non-linear cases: design inputs in the box |x| <= 1 (multiples of 1/4), coupling row sums of the tangent system <= 1/2 at "
+        "every linearized point (well-conditioned residual Jacobian), no rescaling; the disciplines' own Jacobians are compared "
+        "with the partial derivatives at the linearized points within the bound of the rounded stream (not observed for Newton-Raphson)",
         "BICG/BICGSTAB/CGS/TFQMR: a SciPy break-down (RuntimeError) is counted, not judged; an inaccurate result is a violation only if GMRES reproduces it",
         "CG is excluded (needs a symmetric positive definite matrix, the residual Jacobian is not)",
         f"work limit: a step may apply SciPy linear operators at most {WORK_LIMIT} times ({WORK_LIMIT_LOW} once two steps "
@@ -1886,18 +2509,33 @@ def run(ctx) -> Result:
         cases.append(gen_case(rng, system, "sweep", "assembly"))
         if rng.chance(0.5):
             cases.append(gen_case(rng, system, "sweep", rng.pick(MDA_PATHS)))
+        for flavour in ("nl", "free"):
+            c3 = gen_case_r3(rng, system, flavour)
+            if c3 is not None:
+                cases.append(c3)
         for _ in range(2):
             asm_items.append((system, gen_kinds(rng, system), gen_asm(rng, system)))
     cases = [c for c in cases if c["steps"] and _valid_case(c)]
-    batch = 30
-    for i in range(0, len(cases), batch):
-        if time.time() > ctx.deadline:
-            res.notes.append(f"deadline reached after {i} cases")
-            break
-        check_cases(res, cases[i : i + batch], use_lean)
-        if len([v for v in res.violations if v.kind == "oracle"]) >= 4:
-            res.notes.append(f"stopped after {i + batch} cases: 4 distinct oracle violations already have a replay")
-            break
+    batch = 40
+    # the model answers of the next batch are computed (Lean driver, a sub-process) while the implementation
+    # runs the current one
+    from concurrent.futures import ThreadPoolExecutor
+
+    starts = list(range(0, len(cases), batch))
+    with ThreadPoolExecutor(max_workers=1) as pool:
+        fut = pool.submit(model_answers, model_request(cases[:batch])) if use_lean and starts else None
+        for n, i in enumerate(starts):
+            if time.time() > ctx.deadline:
+                res.notes.append(f"deadline reached after {i} cases")
+                break
+            model = fut.result() if fut is not None else None
+            fut = None
+            if use_lean and n + 1 < len(starts):
+                fut = pool.submit(model_answers, model_request(cases[starts[n + 1] : starts[n + 1] + batch]))
+            check_cases(res, cases[i : i + batch], use_lean, model=model)
+            if len([v for v in res.violations if v.kind == "oracle"]) >= 4:
+                res.notes.append(f"stopped after {i + batch} cases: 4 distinct oracle violations already have a replay")
+                break
     check_asm(res, asm_items, use_lean)
     res.extra["max_operator_applications_per_step"] = dict(c07_limits.STATE.max_by_tag)
     res.extra["operator_application_limit"] = WORK_LIMIT
@@ -1911,15 +2549,17 @@ def replay(path: str) -> int:
         case = rp["case"]
         obs = run_case(case)
         fl = case_failures(case, observations=obs)
-        exact = exact_total(eff_system(case))
+        per_step = step_systems(case)
         if case.get("exps"):
             print("exponents of the rescaling:", case["exps"])
         for k, st in enumerate(case["steps"]):
             print(f"step {k}: {st}")
             print("  impl :", obs[k].get("jac", {k2: v for k2, v in obs[k].items() if k2 != "store"}))
-            print("  exact:", {f"{f}:{x}": [[str(v) for v in r] for r in exact[(f, x)]] for f in st["functions"] for x in st["variables"]})
+            exact = per_step[k][1]
+            shown = (lambda v: str(v) if v.denominator < 10**6 else repr(float(v)))
+            print("  exact:", {f"{f}:{x}": [[shown(v) for v in r] for r in exact[(f, x)]] for f in st["functions"] for x in st["variables"]})
         try:
-            print("  model:", common.run_lean_driver(PID, [td_line(case["system"], st, exps=case.get("exps")) for st in case["steps"]]))
+            print("  model:", [a[:400] for a in common.run_lean_driver(PID, [model_line(case, st) for st in case["steps"]])])
         except Exception as e:  # noqa: BLE001
             print("  model: (driver unavailable)", e)
         bad = [(k, key, msg) for k, key, msg in fl if not key.startswith("probe:")]
